@@ -464,7 +464,13 @@ def clause_warmup(ctx, dets):
             missing = q.guard_set_implies(ev, specs)
             # sub-window guards: n0 >= thresh and n1 >= thresh on two different loop variables
             subs = []
-            for g in guards(ev):
+            # a helper's verdict `(a and b) or (a and b and c)` guards with what holds in each of its cases
+            flat = []
+            for g0 in guards(ev):
+                cases = q.dnf([g0])
+                common = [x for x in cases[0] if all(any(x == y for y in k) for k in cases[1:])] if cases else []
+                flat.extend(common if len(cases) > 1 else q.conjuncts(g0))
+            for g in flat:
                 c = q.is_cmp(g)
                 if c is None:
                     continue
@@ -483,7 +489,7 @@ def clause_warmup(ctx, dets):
             ctx.ob("GRD-warmup", cname + ".update", "guard of store 'drift'", ok,
                    ("missing: %s; sub-window guards on %s" % ("; ".join(q.short(m, 100) for m in missing), sorted(set(subs)))),
                    _site_pc_ev(tr, ev))
-            eps = [g for g in guards(ev) if T.mentions(g, lambda a: a[0] == "call" and a[1] == "abs")]
+            eps = [g for g in flat if T.mentions(g, lambda a: a[0] == "call" and a[1] == "abs")]
             ctx.ob("GRD-warmup", cname + ".update", "drift store is under the epsilon-cut test", bool(eps), "", _site_pc_ev(tr, ev))
     # LinearFourRates
     nstores += lfr_cadence(ctx)
